@@ -411,12 +411,29 @@ func genC15Program(t *T) (family int, init []Op, progs [][]cOp) {
 	progs = make([][]cOp, ntasks)
 	step := 0
 	hot := names[c.Draw(len(names))]
+	// one trial in five has a task that lists the directory a through its own handle while the others work
+	// on a's child (a listing is one operation: it must not see a child half-removed)
+	listTask := -1
+	if c.Chance(1, 5) {
+		listTask = c.Draw(ntasks)
+		init = append(init, Op{Kind: "Mkdir", P: "a", Perm: 0755}, Op{Kind: "WriteFullFile", P: "a/c", Perm: 0644, Data: []byte("init-a/c")})
+	}
 	for i := range progs {
 		n := 1 + c.Draw(3)
-		handleTask := c.Chance(2, 5) // a task that works on its own handle of the (shared) hot name
+		handleTask := c.Chance(2, 5) && i != listTask // a task that works on its own handle of the (shared) hot name
 		for j := 0; j < n; j++ {
 			step++
 			o := genCOp(t, names, step)
+			if listTask >= 0 && i != listTask && o.H == "" && c.Chance(1, 2) {
+				o.P = "a/c"
+			}
+			if i == listTask {
+				if j == 0 {
+					o = cOp{H: "HOpen", Op: Op{P: "a", Flag: hackpadfs.FlagReadOnly}}
+				} else {
+					o = cOp{H: "HReadDir", N: []int{-1, 1, 2}[c.Draw(3)]}
+				}
+			}
 			if handleTask {
 				if j == 0 {
 					flag := []int{hackpadfs.FlagReadWrite | hackpadfs.FlagCreate, hackpadfs.FlagReadWrite, hackpadfs.FlagReadWrite | hackpadfs.FlagAppend | hackpadfs.FlagCreate, hackpadfs.FlagReadOnly}[c.Draw(4)]
